@@ -1,8 +1,16 @@
 package pool
 
 import (
+	"github.com/vipnode/vipnode/v2/internal/verifapi"
 	"github.com/vipnode/vipnode/v2/pool/store"
+	"github.com/vipnode/vipnode/v2/pool/store/badger"
 	"github.com/vipnode/vipnode/v2/pool/store/memory"
 )
 
-func newVerifStore() store.Store { return memory.New() }
+// newVerifStore: driver 0 = memory, 1 = badger (KV model in the symbolic build, real in-memory badger in replay).
+func newVerifStore() store.Store {
+	if verifapi.Param("driver", 0) == 1 {
+		return badger.VerifOpen()
+	}
+	return memory.New()
+}
